@@ -48,6 +48,7 @@ type UEParams struct {
 	AuthOptIEs  int `json:"auth_opt"`  // bit set of optional IEs added to the DownlinkNASTransport carrying AUTHENTICATION REQUEST (placed after NAS-PDU)
 	SMCOpt      int `json:"smc_opt"`   // bit 0 IMEISV request, bit 1 additional 5G security information, bit 2 ABBA
 	ICSOpt      int `json:"ics_opt"`   // optional IEs of InitialContextSetupRequest
+	RadioCapLen int `json:"radio_cap_len,omitempty"` // octets of the UERadioCapability IE when present (0 = 4)
 	RegAccOpt   int `json:"regacc_opt"`
 	CUCOpt      int `json:"cuc_opt"`
 	SMCNgapOpt  int  `json:"smc_ngap_opt,omitempty"` // optional IEs of the DownlinkNASTransport carrying SECURITY MODE COMMAND (after NAS-PDU)
